@@ -4,6 +4,7 @@ import (
 	"context"
 	"encoding/json"
 	"fmt"
+	"net"
 	"sync"
 	"time"
 
@@ -28,6 +29,10 @@ type TimedID struct {
 	Match      string   // none | late: the matching reply is delivered MarginMs after the deadline
 	MarginMs   int
 	ViaCtx     bool // the deadline comes from the context (ExchangeWithConnContext), Client.Timeout is long
+	// Via names the documented source of the deadline: "" = Client.Timeout (or the context when ViaCtx),
+	// readTimeout = Client.ReadTimeout with Client.Timeout unset, dialer = Client.Dialer.Timeout smaller
+	// than a long Client.Timeout ("net.Dialer.Timeout has priority if smaller")
+	Via string
 }
 
 func genTimedID(t *rapid.T) TimedID {
@@ -40,7 +45,14 @@ func genTimedID(t *rapid.T) TimedID {
 	}
 	c.Match = rapid.SampledFrom([]string{"none", "late", "late"}).Draw(t, "match")
 	c.MarginMs = rapid.SampledFrom([]int{15, 30, 60, 150}).Draw(t, "margin")
-	c.ViaCtx = rapid.IntRange(0, 3).Draw(t, "viaCtx") == 0
+	switch rapid.IntRange(0, 5).Draw(t, "via") {
+	case 0:
+		c.ViaCtx = true
+	case 1:
+		c.Via = "readTimeout"
+	case 2:
+		c.Via = "dialer"
+	}
 	return c
 }
 
@@ -48,7 +60,7 @@ const timedSlack = 3 * time.Second // scheduling slack granted to a loaded machi
 
 func checkTimedID(c TimedID) error {
 	key, _ := json.Marshal(c)
-	pbt.Note(key, true, "match="+c.Match, fmt.Sprintf("viaCtx=%v", c.ViaCtx), fmt.Sprintf("timeout=%dms", c.TimeoutMs))
+	pbt.Note(key, true, "match="+c.Match, fmt.Sprintf("viaCtx=%v", c.ViaCtx), "via="+c.Via, fmt.Sprintf("timeout=%dms", c.TimeoutMs))
 	pbt.Sample("timed", c)
 	if c.TimeoutMs <= 0 || c.IntervalMs <= 0 || len(c.Kinds) == 0 {
 		return fmt.Errorf("malformed case")
@@ -122,8 +134,14 @@ func checkTimedID(c TimedID) error {
 	q.SetQuestion("t.", dns.TypeNULL)
 	q.Id = c.ID
 	cli := &dns.Client{Net: "udp", Timeout: timeout}
+	switch c.Via {
+	case "readTimeout":
+		cli = &dns.Client{Net: "udp", ReadTimeout: timeout}
+	case "dialer":
+		cli = &dns.Client{Net: "udp", Timeout: 30 * time.Second, Dialer: &net.Dialer{Timeout: timeout}}
+	}
 	ctx := context.Background()
-	if c.ViaCtx {
+	if c.ViaCtx && c.Via == "" {
 		var cancel context.CancelFunc
 		cli.Timeout = 30 * time.Second
 		ctx, cancel = context.WithTimeout(ctx, timeout)
